@@ -40,7 +40,7 @@ PROPS = {
     'C02': dict(module='c02', pfile='P_C02', required=['C02_aligned', 'C02_fraction', 'C02_volume', 'C02_evidence', 'C02_weights', 'C02_kish', 'C02_exec_volume', 'C02_exec_shell_evidence', 'C02_exec_shell_neff', 'C02_exec_evidence', 'C02_exec_neff'],
                 trusted=[KERNEL, EXTRACTION] + SHELL_TRUST + ['the exact evaluator EstimExec (dyadic sums) used for the comparison is proved to compute the specification statistics of Estim.v (C02_exec_*)', 'exp/log at the boundary of the exact model and the 1e-9 tolerance in harness/shellfam.py']),
     'C03': dict(module='c03', pfile='P_C03', required=['C03_rows', 'C03_once', 'C03_posterior', 'C03_blob_shape', 'C03_squeeze_asis_refuted'], trusted=[KERNEL, EXTRACTION] + SHELL_TRUST),
-    'C10': dict(module='c10', pfile='P_C10', required=['C10_batch', 'C10_counter', 'C10_support', 'C10_stored', 'C10_lockstep', 'C10_stored_nocand', 'C10_count', 'C10_budget', 'C10_success', 'C10_branch', 'C10_stop_refines', 'C10_stop_rule'], trusted=[KERNEL, EXTRACTION] + SHELL_TRUST + ['oracle bits of the run() loop: n_eff >= target and f_live <= target recomputed by the harness from the public accessors (floating point is not modelled), time-out only exercised as timeout=0; order of log-likelihood values given to the control layer as ranks computed by numpy']),
+    'C10': dict(module='c10', pfile='P_C10', required=['C10_batch', 'C10_counter', 'C10_support', 'C10_stored', 'C10_lockstep', 'C10_stored_nocand', 'C10_count', 'C10_loop_stored', 'C10_budget', 'C10_success', 'C10_branch', 'C10_stop_refines', 'C10_stop_rule'], trusted=[KERNEL, EXTRACTION] + SHELL_TRUST + ['oracle bits of the run() loop: n_eff >= target and f_live <= target recomputed by the harness from the public accessors (floating point is not modelled), time-out only exercised as timeout=0; order of log-likelihood values given to the control layer as ranks computed by numpy']),
     'C12': dict(module='c12', pfile='P_C12', required=['C12_frozen', 'C12_nonempty', 'C12_toggle', 'C12_view'], trusted=[KERNEL, EXTRACTION] + SHELL_TRUST),
     'C09': dict(module='c09', pfile='P_C09',
                 required=['C09_cube', 'C09_ellipsoid', 'C09_mixture', 'C09_union', 'C09_shift', 'C09_emulator', 'C09_neural', 'C09_nautilus', 'C09_update_union', 'C09_update_nautilus'],
